@@ -48,7 +48,7 @@ def episode_for(project, rng, n_pat=6):
             sg = ep.scan(mpath=mp, ext=True, extexcl={"kind": "glob", "patterns": group})
             ep.law("internal", [s0, sg])
             if rng.random() < 0.3:      # external options x level limit: the limited scan is the quotient of the unlimited one
-                sl = ep.scan(mpath=mp, ext=True, extexcl={"kind": "glob", "patterns": group}, limit=rng.randint(1, 2))
+                sl = ep.scan(mpath=mp, ext=True, extexcl={"kind": "glob", "patterns": group}, limit=rng.randint(0, 2))
                 ep.law("quotient", [sg, sl])
             if rng.random() < 0.4:
                 sr = ep.scan(mpath=mp, ext=True, extexcl={"kind": "regex", "patterns": group, "from_glob": True})
